@@ -147,6 +147,8 @@ package silence
 // silence it adds exactly once (so it becomes visible to queries and to the silencer).
 //@ func (*Silences).Merge
 //@   props C09 C02
+//@   ensures [monitor-lock-released] count("Mutex).Lock") == count("Mutex).Unlock") && count("Mutex).Lock") <= 1
+//@   at call state).merge assert [monitor-lock-held] count("Mutex).Lock") == 1 && count("Mutex).Unlock") == 0
 //@   requires s != nil && storeInv(s) && s.broadcast != nil && s.metrics != nil && s.metrics.propagatedMessagesTotal != nil
 //@            && s.metrics.matcherCompileIndexSilenceErrorsTotal != nil && s.logger != nil && metricsOK(s)
 //@   ensures [inv] storeInv(s)
@@ -235,6 +237,8 @@ package silence
 // C12 (+ C18 limits): creating / editing a silence through the API.
 //@ func (*Silences).Set
 //@   props C12 C18
+//@   ensures [monitor-lock-released] count("Mutex).Lock") == count("Mutex).Unlock") && count("Mutex).Lock") <= 1
+//@   at call Silences).getSilence assert [monitor-lock-held] count("Mutex).Lock") == 1 && count("Mutex).Unlock") == 0
 //@   requires s != nil && storeInv(s) && sil != nil && s.broadcast != nil && s.metrics != nil && metricsOK(s)
 //@            && s.metrics.matcherCompileIndexSilenceErrorsTotal != nil && s.logger != nil && s.retention >= 0 && tracer != nil && ErrNotFound != nil
 //@   requires forall k string :: k in s.st ==> s.st[k].Silence != sil
@@ -275,6 +279,7 @@ package silence
 //@ spec gcDue(ms *pb.MeshSilence, n time.Time) bool = ms.ExpiresAt == nil || tsT(ms.ExpiresAt) == 0 || tsT(ms.ExpiresAt) <= n
 //@ func (*Silences).GC
 //@   props C12 C02
+//@   ensures [monitor-lock-released] count("Mutex).Lock") == count("Mutex).Unlock") && count("Mutex).Lock") == 1
 //@   requires s != nil && storeInv(s) && s.metrics != nil && metricsOK(s) && s.metrics.gcDuration != nil && s.metrics.gcErrorsTotal != nil
 //@   ensures [only-expired] let n = ret("nowUTC") in forall k string :: old(k in s.st) && !(k in s.st) ==> old(gcDue(s.st[k], n))
 //@   ensures [every-due-indexed-silence-removed] let n = ret("nowUTC") in forall i int :: 0 <= i && i < old(len(s.vi)) && old(s.vi[i].id in s.st) && old(gcDue(s.st[s.vi[i].id], n)) ==> !(old(s.vi[i].id) in s.st)
@@ -459,6 +464,8 @@ package silence
 // DESIGN.md 4.2): every id in the version index is stored, non-nil, and the index is ordered by version.
 //@ func (*Silences).query
 //@   props C02 C12
+//@   ensures [monitor-lock-released] count("RWMutex).RLock") == count("RWMutex).RUnlock") && count("RWMutex).RLock") == 1
+//@   at call query$2 assert [monitor-lock-held] count("RWMutex).RLock") == 1 && count("RWMutex).RUnlock") == 0
 //@   requires s != nil && q != nil
 //@   assumes s.metrics != nil && s.metrics.queryScannedTotal != nil && s.metrics.querySkippedTotal != nil
 //@   assumes forall k int :: 0 <= k && k < len(q.filters) ==> q.filters[k] != nil
@@ -510,6 +517,7 @@ package silence
 
 //@ func (*Silences).Version
 //@   props C02
+//@   ensures [monitor-lock-released] count("RWMutex).RLock") == count("RWMutex).RUnlock") && count("RWMutex).RLock") == 1
 //@   requires s != nil
 //@   ensures [current] result == s.version
 //@   assigns nothing
@@ -531,6 +539,7 @@ package silence
 // ---- C02: the per-alert cache: a map from fingerprint to (version seen, ids of the non-expired matching silences).
 //@ func (*cache).get
 //@   props C02
+//@   ensures [monitor-lock-released] count("RWMutex).RLock") == count("RWMutex).RUnlock") && count("RWMutex).RLock") == 1
 //@   requires c != nil
 //@   assumes forall k model.Fingerprint :: k in c.entries ==> c.entries[k] != nil
 //@   ensures [hit] (fp in c.entries) ==> result == c.entries[fp]
@@ -539,11 +548,13 @@ package silence
 //@   assigns nothing
 //@ func (*cache).set
 //@   props C02
+//@   ensures [monitor-lock-released] count("Mutex).Lock") == count("Mutex).Unlock") && count("Mutex).Lock") == 1
 //@   requires c != nil && c.entries != nil
 //@   ensures [stored] dom(c.entries) == setadd(old(dom(c.entries)), fp) && vals(c.entries) == upd(old(vals(c.entries)), fp, entry)
 //@   assigns c.entries[*]
 //@ func (*cache).delete
 //@   props C02
+//@   ensures [monitor-lock-released] count("Mutex).Lock") == count("Mutex).Unlock") && count("Mutex).Lock") == 1
 //@   requires c != nil
 //@   ensures [removed] dom(c.entries) == setrem(old(dom(c.entries)), fp)
 //@   ensures [others-kept] forall k model.Fingerprint :: k != fp ==> c.entries[k] == old(c.entries[k])
